@@ -35,6 +35,20 @@ type ASTNode struct {
 	InheritedFrom string
 }
 
+// Copy returns a deep copy of the node: the children and the rules of the copy
+// can be changed without touching the node it was made from.
+func (c ASTNode) Copy() ASTNode {
+	c.Rules = copyRuleASTNodes(c.Rules)
+	if c.Children != nil {
+		children := make([]ASTNode, len(c.Children))
+		for i := range c.Children {
+			children[i] = c.Children[i].Copy()
+		}
+		c.Children = children
+	}
+	return c
+}
+
 func (c *ASTNode) ObjectProperty(k string) *ASTNode {
 	for i := range c.Children {
 		if c.Children[i].Key == k {
@@ -77,6 +91,30 @@ type RuleASTNode struct {
 
 	// Source a source of this rule.
 	Source RuleASTNodeSource
+}
+
+func copyRuleASTNode(n RuleASTNode) RuleASTNode {
+	n.Properties = copyRuleASTNodes(n.Properties)
+	if n.Items != nil {
+		items := make([]RuleASTNode, len(n.Items))
+		for i := range n.Items {
+			items[i] = copyRuleASTNode(n.Items[i])
+		}
+		n.Items = items
+	}
+	return n
+}
+
+// copyRuleASTNodes returns a deep copy of the rules (nil stays nil).
+func copyRuleASTNodes(m *RuleASTNodes) *RuleASTNodes {
+	if m == nil {
+		return nil
+	}
+	out := &RuleASTNodes{}
+	m.EachSafe(func(k string, v RuleASTNode) {
+		out.Set(k, copyRuleASTNode(v))
+	})
+	return out
 }
 
 func NewRuleASTNodes(data map[string]RuleASTNode, order []string) *RuleASTNodes {
